@@ -43,6 +43,4 @@ Spec == Init /\ [][Next]_vars /\ WF_vars(NewRerunner \/ RunCheck \/ RunLock \/ R
 Returns == <>(hpc = "done" /\ rpc = "exit")
 \* once the handler has returned no run is in progress (what the code reads afterwards is stable)
 NoRunAfterReturn == hpc = "done" => rpc \in {"exit", "wait", "lock"} /\ ~rmu
-\* a request whose wait ended because the function signalled has its response
-Answered == (hpc \in {"stop", "done"} /\ signalled /\ wrote) \/ hpc \in {"new", "wait"} \/ ~wrote \/ TRUE
 =============================================================================
